@@ -244,6 +244,11 @@ def check_C08(ctx):
     for s in bad:
         root = gen.mkcmd("app", decls=decls, spec=s, policy=0, before={"k": "ret"}, after={"k": "ret"})
         runs.append({"op": "run", "env": {}, "version": None, "root": root, "argv": ["x"]})
+        # the spec is compiled before anything else is looked at: a version or a help request does not get past an ill-formed spec
+        if rng.random() < 0.5:
+            runs.append({"op": "run", "env": {}, "version": {"name": "V version", "text": "v1", "last": rng.random() < 0.5},
+                         "root": copy.deepcopy(root), "argv": [rng.choice(["-V", "--version"])] + rng.choice([[], ["x"]])})
+            runs.append({"op": "run", "env": {}, "version": None, "root": copy.deepcopy(root), "argv": [rng.choice(["-h", "--help"])]})
     # ... also when the spec error sits in a sub-command: it is compiled when Run descends into it, when help
     # descends through it, and when the help of its parent is printed (after a rejection of the parent too)
     sub_decls = [gen.mkopt("bool", "a", **{"def": ["false"]}), gen.mkarg("strings", "X")]
@@ -272,6 +277,11 @@ def check_C08(ctx):
             npanic += 1
         if a["outcome"][0] == "panic" and a["trace"]:
             ctx.violation("panic-before-hooks", "spec %r: callbacks ran before the panic: %r" % (c["root"]["spec"], a["trace"]), case=c)
+        mb = res[c["id"]][1]
+        if mb["outcome"][0] == "panic" and str(mb["outcome"][1]).startswith("parse:") and not c["root"]["subs"] and \
+                not (a["outcome"][0] == "panic" and str(a["outcome"][1]).startswith("parse:")) and a["outcome"][0] != "timeout":
+            ctx.violation("panic-before-hooks", "the root's spec %r is ill-formed, yet Run(%r) does not panic with the spec error: it ends %r and writes %r"
+                          % (c["root"]["spec"], c["argv"], a["outcome"], a["stderr"][:1]), case=c)
         if c.get("_must_panic") and ref_lex(c["_sub_spec"]) is None and not (a["outcome"][0] == "panic" and str(a["outcome"][1]).startswith("parse:")):
             ctx.violation("panic-before-hooks", "sub-command %r (hidden: %r) has the ill-formed spec %r and is compiled by %r, but Run did not panic with "
                           "the spec error: %r" % ("sub", [x["hidden"] for x in c["root"]["subs"] if x["name"] == "sub s"][0], c["_sub_spec"], c["argv"], a["outcome"]), case=c)
@@ -1127,7 +1137,7 @@ def expected_log(cu, env_vals, bound):
 def check_C19(ctx):
     rng = ctx.rng
     cases = []
-    toks = ["v", "w", "bad1", "x y", "true", "7"]
+    toks = ["v", "w", "bad1", "x y", "true", "7", "0", "1", "T", "FALSE", "t", "caf\xe9", "\xff\xfe"]
     envs = [None, "", "e1", "bad0", "e1, e2", "e1,bad2,e3"]
     combos = [(b, c, d, False) for b, c, d in itertools.product([False, True], repeat=3)]
     combos += [(True, c, d, True) for c, d in itertools.product([False, True], repeat=2)]   # IsBoolFlag() present, answers false
